@@ -41,6 +41,9 @@ def run(ctx: Ctx):
     from .common import dependency_footprints
 
     dependency_footprints(ctx)
+    from .common import public_values_assembled
+
+    public_values_assembled(ctx, "public-assembled", "_Slice", ("column_std_dev", "column_std_err", "row_std_dev", "row_std_err", "table_std_dev", "table_std_err", "column_proportions_moe", "row_proportions_moe", "table_proportions_moe", "column_proportion_variances", "row_proportion_variances", "table_proportion_variances"))
 
 
 class _Sub(ast.NodeTransformer):
